@@ -10,6 +10,8 @@
 (*   alt   second admissible canonical text (only with -0.0 like literals) *)
 (*   bad   number literals the enforced variant must refuse (ASCII bytes)  *)
 (*   nz    the text holds the literal -0 (enforced variant unconstrained)  *)
+(*   look  what a number reader would make of the characters of the text's *)
+(*         STRINGS (NumLook classes present; no expected result reads it)  *)
 (*   ast   supplementary code points an ill-formed text really holds: an   *)
 (*         accepted ill-formed text may not produce any other              *)
 (* and the room version table is emitted once (ASSUME at the end).         *)
@@ -205,6 +207,73 @@ LookStrs == { <<45, 48>>, <<45, 48, 46, 53>>, <<49, 101, 45, 48, 53>>, <<49, 46,
               <<34, 45, 48>>, <<92, 45, 48>>, <<34, 32, 34>>, <<92, 110>>, <<92, 117, 48, 48, 52, 49>> }
 FamLook == {Sc("look", StrPlace(p, s), 0, 0, FALSE, FALSE) : p \in {"top", "elem", "mval", "key"}, s \in LookStrs}
 
+\* --- families numstr / lenient / keynum: kinds do not cross (CanonJSON.tla section 3b) ------------------
+\* The characters of a number BETWEEN QUOTES: a string value or an object key whose characters a number reader
+\* would take for a number that the room-version-6 rule refuses (or for any number at all).  Such a text holds
+\* no number: every room version must accept it and return what the plain variant returns; next to a real
+\* number the verdict follows the real number alone.  The records carry look = LooksOf(value) (the classes of
+\* NumLook present) for naming a disagreement; the expected results are Canon / InadmissibleLits as ever.
+\* numstr A: every scenario of the num family with its number between quotes (every literal x every place)
+FamNumStrA == {Sc("numstr", Quoted(NumPlace(p, n)), 0, 0, FALSE, FALSE) : p \in NumPlaces, n \in Lits}
+\* numstr B: next to a real number, both orders, in an array and in an object (partners: admissible, -0.5, 1E2, 2^53, ...)
+StrNumPair(k, n, m) == CASE k = "sn" -> VArr(<<VStr(n), VNum(m)>>)
+                         [] k = "ns" -> VArr(<<VNum(m), VStr(n)>>)
+                         [] k = "obj" -> VObj(<<Mem(Ka, VStr(n)), Mem(Kb, VNum(m))>>)
+                         [] k = "deep" -> VObj(<<Mem(Ka, VArr(<<VObj(<<Mem(Kb, VStr(n))>>)>>)), Mem(Kb, VArr(<<VNum(m)>>))>>)
+FamNumStrB == {Sc("numstr", StrNumPair(k, n, m), 0, 0, FALSE, FALSE) :
+                  k \in {"sn", "ns", "obj", "deep"}, n \in Lits, m \in (IF Quick THEN {<<49>>, Lit(OverLit), Lit(<<"1","E","2">>)} ELSE PairPartners)}
+\* numstr C: one character of the string spelt with an escape (the characters of a string are what its escapes denote);
+\* every character in turn.  Quick: the out-of-range and huge literals; thorough: every literal, two places
+StrongLits == WideLits \cup {Lit(OverLit), Lit(<<"-">> \o OverLit), Lit(<<"1","e","4","0","0">>), Lit(<<"1",".","5","e","3","0","0">>)}
+FamNumStrC == {Sc("numstr", StrPlace(p, n), 0, 1, FALSE, FALSE) :
+                  p \in (IF Quick THEN {"mval"} ELSE {"mval", "elem", "key"}), n \in (IF Quick THEN StrongLits ELSE Lits)}
+\* keynum: the literal as an object KEY, its value an admissible / an inadmissible number / a string / a container
+KeyNumVal(k, n) == CASE k = "ok" -> One [] k = "over" -> VNum(Lit(OverLit)) [] k = "same" -> VStr(n)
+                      [] k = "arr" -> VArr(<<>>) [] k = "nested" -> VObj(<<Mem(n, VNull)>>)
+FamKeyNum == {Sc("keynum", VObj(<<Mem(n, KeyNumVal(k, n))>>), 0, 0, FALSE, FALSE) :
+                 n \in Lits, k \in {"ok", "over", "same", "arr", "nested"}}
+
+\* lenient: spellings OUTSIDE the JSON number grammar that lenient readers (strtod, ParseFloat, ECMAScript Number())
+\* accept: inf / infinity / nan in any case with a sign, hexadecimal floats, a leading +, a point without digits on
+\* one side, leading zeros, digit-group underscores, surrounding blanks (_SP_ below is a space)
+LenientStrs == {
+  \* Infinity   infinity   INFINITY   iNfInItY
+  <<73,110,102,105,110,105,116,121>>, <<105,110,102,105,110,105,116,121>>, <<73,78,70,73,78,73,84,89>>, <<105,78,102,73,110,73,116,89>>,
+  \* inf   Inf   INF   -Infinity
+  <<105,110,102>>, <<73,110,102>>, <<73,78,70>>, <<45,73,110,102,105,110,105,116,121>>,
+  \* +Infinity   -inf   +inf   -INF
+  <<43,73,110,102,105,110,105,116,121>>, <<45,105,110,102>>, <<43,105,110,102>>, <<45,73,78,70>>,
+  \* NaN   nan   NAN   -nan
+  <<78,97,78>>, <<110,97,110>>, <<78,65,78>>, <<45,110,97,110>>,
+  \* +NaN   0x1p60   0X1P60   0x1p+60
+  <<43,78,97,78>>, <<48,120,49,112,54,48>>, <<48,88,49,80,54,48>>, <<48,120,49,112,43,54,48>>,
+  \* -0x1p60   +0x1p60   0x1.8p1023   0x1p1024
+  <<45,48,120,49,112,54,48>>, <<43,48,120,49,112,54,48>>, <<48,120,49,46,56,112,49,48,50,51>>, <<48,120,49,112,49,48,50,52>>,
+  \* 0x1p-60   0x20000000000000   0X1.FFFFFFFFFFFFFP52   0x_1p6_0
+  <<48,120,49,112,45,54,48>>, <<48,120,50,48,48,48,48,48,48,48,48,48,48,48,48,48>>, <<48,88,49,46,70,70,70,70,70,70,70,70,70,70,70,70,70,80,53,50>>, <<48,120,95,49,112,54,95,48>>,
+  \* +1   +1e400   +9007199254740992   .5
+  <<43,49>>, <<43,49,101,52,48,48>>, <<43,57,48,48,55,49,57,57,50,53,52,55,52,48,57,57,50>>, <<46,53>>,
+  \* 5.   1.e400   .5e400   -.5e400
+  <<53,46>>, <<49,46,101,52,48,48>>, <<46,53,101,52,48,48>>, <<45,46,53,101,52,48,48>>,
+  \* 01   009007199254740992   -09007199254740992   1_0
+  <<48,49>>, <<48,48,57,48,48,55,49,57,57,50,53,52,55,52,48,57,57,50>>, <<45,48,57,48,48,55,49,57,57,50,53,52,55,52,48,57,57,50>>, <<49,95,48>>,
+  \* 1_000e400   9_007_199_254_740_992   _SP_1e400   1e400_SP_
+  <<49,95,48,48,48,101,52,48,48>>, <<57,95,48,48,55,95,49,57,57,95,50,53,52,95,55,52,48,95,57,57,50>>, <<32,49,101,52,48,48>>, <<49,101,52,48,48,32>>,
+  \* _SP_9007199254740992_SP_   \t1   1e400\n   _SP_Infinity
+  <<32,57,48,48,55,49,57,57,50,53,52,55,52,48,57,57,50,32>>, <<9,49>>, <<49,101,52,48,48,10>>, <<32,73,110,102,105,110,105,116,121>>,
+  \* -inf_SP_
+  <<45,105,110,102,32>> }
+ASSUME /\ \A x \in LenientStrs : ~IsNumLit(x) /\ NumLook(x) \in {"inf-nan-word", "hex-float", "lenient-decimal", "number-in-blanks"}
+       /\ {NumLook(x) : x \in LenientStrs} = {"inf-nan-word", "hex-float", "lenient-decimal", "number-in-blanks"}
+       /\ \A x \in Lits : NumLook(x) = LitLook(x)
+       /\ {NumLook(x) : x \in Lits} = {"integer-in-range", "integer-out-of-range", "fraction-or-exponent"}
+       /\ \A x \in StrsUpTo(1) \cup Keys : NumLook(x) = "none"
+FamLenientA == {Sc("lenient", StrPlace(p, x), 0, 0, FALSE, FALSE) : p \in {"top", "elem", "mval", "key"}, x \in LenientStrs}
+FamLenientB == {Sc("lenient", StrNumPair(k, x, m), 0, 0, FALSE, FALSE) :
+                   k \in {"sn", "ns", "obj"}, x \in LenientStrs, m \in {<<49>>, Lit(OverLit)}}
+FamLenientC == {Sc("lenient", StrPlace("mval", x), 0, 1, FALSE, FALSE) :
+                   x \in (IF Quick THEN {y \in LenientStrs : Len(y) <= 8} ELSE LenientStrs)}
+
 \* --- family nestkeys: order-sensitive key pairs inside NESTED objects -----------------------------------
 OrderPairs == { <<<<34>>, <<35>>>>, <<<<10>>, <<34>>>>, <<<<92>>, <<93>>>>, <<<<91>>, <<92>>>>, <<<<64257>>, <<128512>>>>,
                 <<Ka, <<97, 32>>>>, <<<<65>>, Ka>>, <<<<0>>, <<31>>>> }
@@ -226,6 +295,8 @@ GenInit == \/ InitWith(FamStrA) \/ InitWith(FamStrB)
            \/ InitWith(FamNumA) \/ InitWith(FamNumB) \/ InitWith(FamNumC) \/ InitWith(FamNumD)
            \/ InitWith(FamEdgeA) \/ InitWith(FamEdgeB) \/ InitWith(FamLook) \/ InitWith(FamNestKeys)
            \/ InitWith(FamWide) \/ InitWith(FamDup)
+           \/ InitWith(FamNumStrA) \/ InitWith(FamNumStrB) \/ InitWith(FamNumStrC) \/ InitWith(FamKeyNum)
+           \/ InitWith(FamLenientA) \/ InitWith(FamLenientB) \/ InitWith(FamLenientC)
            \/ InitWith(FamKeysA) \/ InitWith(FamKeysB) \/ InitWith(FamKeysC)
            \/ InitWith(FamWs)
            \/ InitWith(FamNestA) \/ InitWith(FamNestB) \/ InitWith(FamNestC) \/ InitWith(FamNestD)
@@ -243,6 +314,7 @@ Emit == Done =>
                    alt  |-> IF val /\ CanonAlt(scen.v) # Canon(scen.v) THEN CanonAlt(scen.v) \o <<>> ELSE <<>>,
                    bad  |-> IF val THEN InadmissibleLits(Parse(text).v) ELSE <<>>,
                    nz   |-> val /\ HasNegZeroLit(Parse(text).v),
+                   look |-> IF val THEN LooksOf(Parse(text).v) ELSE <<>>,
                    ast  |-> IF status \in {"illformed", "dupkeys"} THEN AstralOf(Parse(text).v) \o <<>> ELSE <<>>]))
 
 \* the room version table (MatrixBase.tla), once per run
